@@ -1,8 +1,29 @@
 """C10 configuration for /verif/check."""
 PROP = dict(
         module='kernel', pkg='multiboot', pkgname='multiboot', harness=['multiboot/c10_test.go'],
-        n=dict(quick=300, thorough=12000),
-        nontrivial=r'^[MFCE] .*\| (done|stop|ok) (?!nil|0$|0 )',
-        rule='placeholder',
-        trusted=[], assumptions=[], level_text='placeholder', level_note='placeholder',
+        n=dict(quick=1500, thorough=25000),
+        nontrivial=r'^(M \d+ \| (done|stop) [1-9]|F \| ok \d|C \| ok [1-9]|E \| done [1-9]|T \d+ \| ok \d)',
+        rule='one evaluation = one call of the real findTagByType / VisitMemRegions / GetFramebufferInfo(+field reads) / '
+             'GetBootCmdLine / VisitElfSections (or a dump of the block after the calls) on a generated multiboot block placed '
+             'directly before a PROT_NONE page, replayed through the Lean model; the oracle compares the real observation with '
+             'the expectation computed from the generator-level description of the block (never from the model); '
+             'distinct = by hash of the (op, observation) line; non-trivial = the call found its tag and reported at least one '
+             'region / a framebuffer / a key / a section',
+        trusted=['guard pages (mmap + mprotect PROT_NONE) and debug.SetPanicOnFault turn an out-of-block access of the Go code into an '
+                 'observation; accesses *before* the block start are only caught when they leave the 16-page arena',
+                 'the Go generator c10Encode and the Lean encode are compared byte for byte on every generated block',
+                 'strings.Fields / strings.Split are modelled (fieldsGo / splitEq incl. the multi-byte white-space runes) and '
+                 'compared on every generated command line, not verified'],
+        assumptions=['the block and the string table are the only memory the decoder may touch (model: any other access = fault)',
+                     'well-formed block: entry size >= 24, tag size + 7 < 2^31, known tag numbers used only by their own kind, '
+                     'ELF entry size 64 and < 65536 sections, string table NUL-terminated (predicate MBSpec.wf, checked on every generated case)',
+                     'single-threaded use; cmdLineKV cache reset between cases (the cache itself is not part of the property)'],
+        level_text='Lean theorems for every well-formed block (any tag order, duplicates, unknown tags, odd sizes/padding, entry size >= 24, '
+                   'any entry count, all 32-bit types): first_tag_wins(+_order), absent_is_empty, roundtrip_memmap (with type normalisation), '
+                   'early_stop, types_normalised, roundtrip_framebuffer, roundtrip_elf, roundtrip_cmdline_partial, reads_in_bounds; the model is '
+                   'tied to the Go code by regenerated constants/struct offsets and a differential run on generated blocks behind guard pages.',
+        level_note='Partial: the command-line round-trip is proved for ASCII white space and words without the bytes C2/E1/E2/E3 '
+                   '(cmdPlain); Unicode white space is covered by model/spec/code comparison only. Trusted: Lean kernel (+ propext, '
+                   'Classical.choice, Quot.sound), the theorem statements and the spec (encode/wf/exp*), the harness (correspondence is '
+                   'differential testing on generated inputs, not a proof about the Go code), strings.Fields/Split modelled.',
 )
